@@ -16,5 +16,5 @@ func mk() (a, b I) {
 
 func F() int {
 	_, b := mk()
-	return *b.M() //KNOWN:F41-b3
+	return *b.M() //REPORT
 }
